@@ -98,6 +98,8 @@ def encode(c):
             t = C("LDrop", Z(op["k"]), B(op.get("how") == "poke"), B(st.get("eof", False)))
         elif k == "admin":
             t = C("LAdmin", S(op["cid"]))
+        elif k == "kaprobe":
+            t = C("LKeepalive", Z(op.get("ka", 0)), Z(st.get("dlms", 0)))
         elif k == "extput":
             t = C("LExtPut", S(op["cid"]), _topics(op.get("subs")))
         elif k == "pub":
